@@ -553,6 +553,56 @@ Section Proofs.
   Qed.
 End Proofs.
 
+(* ------------------------------------------------------------------ shared definition objects *)
+Section SharedP.
+  Context {T V M : Type}.
+  Lemma Forall_update {A} (P : A -> Prop) l i x : Forall P l -> P x -> Forall P (update l i x).
+  Proof.
+    intros H Hx. revert i. induction H as [|y r Hy Hr IH]; intros i; cbn; [destruct i; constructor|].
+    destruct i; constructor; auto.
+  Qed.
+  Lemma nth_error_update_other {A} (l : list A) i k x : k <> i -> nth_error (update l i x) k = nth_error l k.
+  Proof.
+    revert i k. induction l as [|y r IH]; intros i k Hne; cbn; [now destruct i|].
+    destruct i, k; cbn; try congruence; auto.
+  Qed.
+  Lemma add_obj_step (e : extension T V M) (o : obj T V M) : exists c, fst (add_obj e o) = step e c.
+  Proof.
+    destruct o as [t|d|v]; [exists (AddType t)|exists (AddOp d)|exists (AddValue v)]; reflexivity.
+  Qed.
+  (* every extension of the world keeps the owner invariant, whatever is shared *)
+  Lemma share_step_own (w : world T V M) ij : Forall own (w_exts w) -> Forall own (w_exts (share_step w ij)).
+  Proof.
+    intros H. unfold share_step.
+    destruct (nth_error (w_exts w) (fst ij)) as [e|] eqn:Ee; [|assumption].
+    destruct (nth_error (w_objs w) (snd ij)) as [o|]; [|assumption]. cbn [w_exts].
+    apply Forall_update; [assumption|]. destruct (add_obj_step e o) as [c ->].
+    apply own_step. rewrite Forall_forall in H. apply H. eapply nth_error_In, Ee.
+  Qed.
+  Lemma share_run_own p : forall w : world T V M, Forall own (w_exts w) -> Forall own (w_exts (share_run w p)).
+  Proof.
+    induction p as [|ij r IH]; cbn; intros w H; [assumption|]. apply IH, share_step_own, H.
+  Qed.
+  Theorem shared_names_owner (hdrs : list (name * version * list name)) (objs : list (obj T V M)) p :
+    let w := {| w_exts := map (fun h => new_ext (fst (fst h)) (snd (fst h)) (snd h)) hdrs; w_objs := objs |} in
+    forall e, In e (w_exts (share_run w p)) -> names_owner e.
+  Proof.
+    intros w e Hin. apply own_names_owner.
+    assert (H : Forall own (w_exts (share_run w p))).
+    { apply share_run_own. cbn. apply Forall_forall. intros x Hx. apply in_map_iff in Hx as [h [<- _]]. constructor. }
+    rewrite Forall_forall in H. now apply H.
+  Qed.
+  (* frame: adding an object to one extension leaves every other extension as it was *)
+  Theorem share_frame (w : world T V M) ij k : k <> fst ij ->
+    nth_error (w_exts (share_step w ij)) k = nth_error (w_exts w) k.
+  Proof.
+    intros Hne. unfold share_step.
+    destruct (nth_error (w_exts w) (fst ij)); [|reflexivity].
+    destruct (nth_error (w_objs w) (snd ij)); [|reflexivity]. cbn [w_exts].
+    now apply nth_error_update_other.
+  Qed.
+End SharedP.
+
 (* ------------------------------------------------------------------ non-vacuity *)
 (* payloads instantiated with numbers and the identity codec *)
 Definition ex_sig : opdefsig N :=
